@@ -314,4 +314,17 @@ def rule_mkdir(ctx):
     ctx.ob("C09.MKD", mk, "directories are created with MKD <path>", ok, "make_directory does not send MKD <path>", construct="make_directory:command")
 
 
-RULES = [rule_dest, rule_rec, rule_list, rule_rm, rule_mkdir]
+def rule_copy_client(ctx):
+    from .c01 import rule_copy
+    ctx.rule("C09.COPY", "the copy loops of Client.upload / Client.download move every block, once, unmodified, until the source is exhausted (shared with C01.COPY)")
+    ctx.borrow(rule_copy, {"C01.COPY": "C09.COPY"}, only=lambda fn: fn.startswith("Client."))
+
+
+def rule_next_dir(ctx):
+    from .c19 import rule_eof
+    ctx.rule("C09.NEXT", "the recursive lister moves on through EVERY queued directory: on an empty read it finishes the stream and takes the next directory, in a loop, until a line "
+                         "arrives or the queue is empty (an empty directory must not end the walk; shared with C19.EOF)")
+    ctx.borrow(rule_eof, {"C19.EOF": "C09.NEXT"}, only=lambda fn: "Client.list" in fn)
+
+
+RULES = [rule_dest, rule_rec, rule_list, rule_rm, rule_mkdir, rule_copy_client, rule_next_dir]
